@@ -2,6 +2,8 @@
   C03 — Gradients have their array's shape; broadcast contributions are summed.
 -/
 import CorgiProofs.EngineProcess
+import CorgiProofs.FlattenTo
+import CorgiProofs.Instances
 
 set_option linter.unusedSectionVars false
 
@@ -49,8 +51,27 @@ theorem C03_every_contribution_reduced (rec : Nat → Bool → EState S → R (E
 theorem C03_first_contribution (d' nd : Tensor S) (h : mergeDelta none d' = .ok nd) : nd = d' := by
   simp [mergeDelta, pure, Except.pure] at h; exact h.symm
 
+
+/-- **Broadcast contributions are summed.**  For every well-formed delta and every operand shape
+    that fits it (right-aligned, each dimension `1` or equal, not longer) and differs from it, the
+    reduced delta has the operand's dimensions and holds, at each position `q` of the operand, the sum
+    (in the delta's row-major order) of the delta's values at *all* positions that project onto `q` —
+    none dropped, none taken twice; with equal dimensions the delta is passed through unchanged. -/
+theorem C03_reduction_is_sum (t : Tensor S) (target : List Nat) (hwf : t.WF) (hne : (t.dims == target) = false)
+    (hfit : Fits target t.dims = true) (hpos : ∀ d ∈ target, 1 ≤ d) :
+    flattenTo t target = .ok (sumBroadcast t target) := flattenTo_spec t target hwf hne hfit hpos
+
+theorem C03_same_shape_unchanged (t : Tensor S) (target : List Nat) (h : (t.dims == target) = true) :
+    flattenTo t target = .ok t := flattenTo_eqdims t target h
+
+/-! non-vacuity: a `[2,3]` delta reduced onto a `[1,3]` (bias-like) and a `[3]` operand -/
+example : Fits [1, 3] [2, 3] = true ∧ Fits [3] [2, 3] = true ∧ ([2, 3] == [1, 3]) = false := by decide
+example : (sumBroadcast (⟨[2, 3], [1, 2, 3, 10, 20, 30]⟩ : Tensor Int) [1, 3]).vals = [11, 22, 33] := by decide
+
 end Corgi
 
 #print axioms Corgi.C03_flatten_dims
 #print axioms Corgi.C03_every_contribution_reduced
 #print axioms Corgi.C03_first_contribution
+#print axioms Corgi.C03_reduction_is_sum
+#print axioms Corgi.C03_same_shape_unchanged
